@@ -657,13 +657,35 @@ fn mx_adv_font(name: &str, adv: &str) -> SynthFont {
         "cls-format10-unit4" => Some(ctx_sub_raw(7, mk_lookup(14, N, &cmap3, false), vec![row(&[(CL_X, 1)]), row(&[(CL_X, 1)])],
             vec![vec![0, 0, 0, -1, -1], vec![0, 0, 0, -1, 0]], vec![x_to_xalt()])),
         "nc-deleted" => Some(json!({"type": 4, "cov": 0, "flags": 1, "lk": mk_lookup(6, N, &map_of(&[(G_X, 0xFFFF)]), true)})),
+        // --- headers that lie about what follows (the counts and lengths a reader must not trust)
+        "hdr-nchains-huge" | "hdr-nsubtables-huge" | "hdr-nfeatures-huge" | "hdr-chainlength-huge" | "hdr-subtable-length-huge"
+        | "hdr-subtable-length-short" => {
+            f.wf = false;
+            let mut sub = fi(vec![act(0, 0, -gi), act(1, 0, 1 - gf)], vec![0, 1], vec![gxa, lig2], 0);
+            match adv {
+                "hdr-subtable-length-huge" => sub["len"] = json!(0xFFFF_FFF0u32),
+                "hdr-subtable-length-short" => sub["len"] = json!(11),
+                _ => {}
+            }
+            Some(sub)
+        }
         "no-chains" | "empty-chain" => None,
         x => panic!("adversarial morx font {}", x),
     };
     f.morx = Some(match (adv, sub) {
         ("no-chains", _) => json!({"ver": 2, "n": N, "lay": 0, "chains": []}),
         ("empty-chain", _) => json!({"ver": 3, "n": N, "lay": 0, "chains": [{"def": 1, "sh": 0, "feats": [], "subs": []}]}),
-        (_, Some(sub)) => one_chain(2, 0, vec![sub]),
+        (_, Some(sub)) => {
+            let mut prog = one_chain(2, 0, vec![sub]);
+            match adv {
+                "hdr-nchains-huge" => prog["n_chains"] = json!(0xFFFF_FFFFu32),
+                "hdr-nsubtables-huge" => prog["chains"][0]["n_subs"] = json!(0xFFFF_FFFFu32),
+                "hdr-nfeatures-huge" => prog["chains"][0]["n_feats"] = json!(0xFFFF_FFFFu32),
+                "hdr-chainlength-huge" => prog["chains"][0]["len"] = json!(0xFFFF_FFFFu32),
+                _ => {}
+            }
+            prog
+        }
         _ => unreachable!(),
     });
     tag(&mut f, "morx_adversarial");
@@ -677,6 +699,9 @@ fn mx_adv_font(name: &str, adv: &str) -> SynthFont {
     }
     if adv.contains("past") || adv.contains("last") {
         tag(&mut f, "morx_index_at_table_end");
+    }
+    if adv.starts_with("hdr-") {
+        tag(&mut f, "morx_header_count_or_length_lies");
     }
     if adv.contains("deleted") {
         tag(&mut f, "morx_deleted_glyph");
